@@ -375,6 +375,18 @@ def leaf_values(an, v, depth=0, seen=None):
             if x != v:
                 out += leaf_values(an, x, depth + 1, seen)
         return out
+    if v[0] == "proj" and v[2] == ("f", 0) and v[1][0] == "proj" and v[1][2][0] == "dc" and v[1][1][0] == "try":
+        # the payload `x?` continues with (dc 0) / the residual it returns (dc 1), for a Result/Option joined before
+        k = v[1][2][1]
+        out = []
+        for l in leaf_values(an, v[1][1][1], depth + 1, seen):
+            if l[0] == "agg" and l[1].startswith(("adt:core::result::Result:", "adt:core::option::Option:")):
+                vi = {"Ok": 0, "Err": 1, "Some": 0, "None": 1}.get(l[1].rsplit(":", 1)[-1])
+                if vi == k and l[2]:
+                    out += leaf_values(an, l[2][0], depth + 1, seen)
+            elif l[0] != "agg":
+                out.append(("proj", ("proj", ("try", l), ("dc", k)), ("f", 0)))
+        return out
     if v[0] == "proj":
         sel = v[2]
         out = []
